@@ -295,7 +295,7 @@ class C17(Prop):
         if rng.random() < 0.04:          # texts float() turns into something that is not a finite number
             return rng.choice(["inf", "nan", "1e400", "-Infinity"])
         forms = [None, None, "%d" % int(v), "%.6f" % v, "%.6e" % v, "%E" % v, "-%.3e" % v, "+%d" % int(v), "%g" % v,
-                 "%d." % int(v), " %.2f " % v, "%.17g" % (v / 3), "%.3e" % (v * 1e-300)]
+                 "%d." % int(v), "%.17g" % (v / 3), "%.3e" % (v * 1e-300)]      # (no blanks inside a read value: no exporter writes them)
         return rng.choice(forms)
 
     def generate(self, rng, tier):
